@@ -87,7 +87,7 @@ def brief_case(row, maxitems=6):
 def case_class(row):
     """stable words for the failing input class (used in signatures); no expectations in here"""
     lay, conf, items = row["lay"], row["conf"], row["items"]
-    last = items[-1]
+    last = items[-1] if items else {"k": "none"}
     lk = last["k"]
     if lk == "E":
         lk = "E/emptybody" if last["e"]["body"] == "" else "E/body"
@@ -97,7 +97,8 @@ def case_class(row):
     return dict(fmt=row["fmt"], style=lay["style"], sep=int(lay["sep"]), final=int(lay["final"]), last=lk,
                 mode="preload" if conf["preload"] else "stream", chosen=chosen,
                 limit="0" if conf["limit"] == 0 else "n", passes="0" if conf["passes"] == 0 else "n",
-                src=(row.get("src") or "tlc").split(":")[0])
+                src=(row.get("src") or "tlc").split(":")[0], rep=conf.get("rep") or "absent",
+                entries="0" if not any(i["k"] == "E" for i in items) else "n")
 
 
 def _original_case(case_files, row):
